@@ -622,18 +622,20 @@ func c14PairVariants(quick bool) []c14PairCase {
 			positions = append(positions, p)
 		}
 	}
+	steps := []int{1, 8}
+	if !quick {
+		steps = nil
+		for k := 1; k < 16; k++ {
+			steps = append(steps, k)
+		}
+	}
 	for _, pos := range positions {
-		for _, how := range []string{"plus1", "xor8"} {
-			pos, how := pos, how
+		for _, k := range steps {
+			pos, k := pos, k
 			add(c14PairCase{
-				Variant: fmt.Sprintf("digit-%02d-%s", pos, how), mismatch: true, keyClass: fmt.Sprintf("digit-altered|quarter=%d", pos/16),
+				Variant: fmt.Sprintf("digit-%02d-plus%d", pos, k), mismatch: true, keyClass: fmt.Sprintf("digit-altered|quarter=%d", pos/16),
 				edit: func(text, good, _ string) string {
-					v := c14HexVal(c14DigitAt(good, pos))
-					if how == "plus1" {
-						v = (v + 1) % 16
-					} else {
-						v ^= 8
-					}
+					v := (c14HexVal(c14DigitAt(good, pos)) + k) % 16
 
 					return c14ReplaceFP(text, "sha-256 "+c14AlterDigit(good, pos, strings.ToUpper(c14HexDigits)[v]))
 				},
@@ -916,7 +918,7 @@ func c14RunPair(t *testing.T, c *vkit.Check, pcase c14PairCase) { //nolint:cyclo
 func TestVerifC14(t *testing.T) {
 	c := vkit.New("C14", "exploration")
 	defer c.Finish(t)
-	c.Rule("seam part: certificate {ECDSA generated, RSA user-supplied (CertificateFromX509), each re-imported from PEM} x remote fingerprint list {correct lower/upper; each of the 64 hex digits replaced by each of the 15 other values (thorough: also in upper case); 11 hash-name variants x {correct, altered} sha-256 value; md5/sha-1/sha-224/sha-384/sha-512 with their own correct/altered value; empty list; empty value; truncated to 16 / 31 bytes; extended; another certificate's fingerprint; 7 multi-entry lists} given to the real validateFingerPrint and the real verify callback (verification on and disabled); extractFingerprint on {BUNDLE, no BUNDLE} x session level {none, first, second} x bundle-master section x other section + malformed values; advertised fingerprint of generated offers/answers x {session, media level} x 7 certificate configurations. pair part: description edited in transit {correct, lower-case, one digit altered at 8 (thorough 64) positions x 2 replacement values, hash name sha-1 / unknown, another certificate's fingerprint, media level only (all sections / master only / altered), session+media both wrong, absent, altered with verification disabled} x victim {offerer = DTLS server, answerer = DTLS client} x peer certificate {ECDSA, RSA; for the correct and one altered variant also two configured certificates in both orders}; the certificate really presented (DTLSTransport.GetRemoteCertificate on the victim) is hashed and compared with the fingerprint the peer advertised; non-trivial = a mismatching case really rejected / a matching case really connected")
+	c.Rule("seam part: certificate {ECDSA generated, RSA user-supplied (CertificateFromX509), each re-imported from PEM} x remote fingerprint list {correct lower/upper; each of the 64 hex digits replaced by each of the 15 other values (thorough: also in upper case); 11 hash-name variants x {correct, altered} sha-256 value; md5/sha-1/sha-224/sha-384/sha-512 with their own correct/altered value; empty list; empty value; truncated to 16 / 31 bytes; extended; another certificate's fingerprint; 7 multi-entry lists} given to the real validateFingerPrint and the real verify callback (verification on and disabled); extractFingerprint on {BUNDLE, no BUNDLE} x session level {none, first, second} x bundle-master section x other section + malformed values; advertised fingerprint of generated offers/answers x {session, media level} x 7 certificate configurations. pair part: description edited in transit {correct, lower-case, one digit altered at 8 positions x 2 replacement values (thorough: each of the 64 digits replaced by each of the 15 other values), hash name sha-1 / unknown, another certificate's fingerprint, media level only (all sections / master only / altered), session+media both wrong, absent, altered with verification disabled} x victim {offerer = DTLS server, answerer = DTLS client} x peer certificate {ECDSA, RSA; for the correct and one altered variant also two configured certificates in both orders}; the certificate really presented (DTLSTransport.GetRemoteCertificate on the victim) is hashed and compared with the fingerprint the peer advertised; non-trivial = a mismatching case really rejected / a matching case really connected")
 	c.Set("schedules_enumerated", false)
 	c.Assume("pair part: one execution per case over loopback; the internal schedule of ICE/DTLS is whatever happens and is not enumerated")
 	c.Assume("a certificate matches a fingerprint when the named hash (name compared without regard to case; md5, sha-1, sha-224, sha-256, sha-384, sha-512) over its DER equals the colon-separated hex value without regard to case")
